@@ -56,6 +56,19 @@ def towers(depth):
     out.append([T("Not", "not")] * depth + x)
     out.append((x + [T("Dot", ".")]) * depth + x)
     out.append((x + [T("Plus", "+")]) * depth + x)
+    # mixed towers: 1 + f(1 + f(…)),  -f(-f(…)),  a.f(a.f(…))
+    t = []
+    for _ in range(depth):
+        t += [T("NumericLiteral", "1"), T("Plus", "+"), T("Identifier", "f"), T("OBracket")]
+    out.append(t + x + [T("CBracket")] * depth)
+    t = []
+    for _ in range(depth):
+        t += [T("Minus", "-"), T("Identifier", "f"), T("OBracket")]
+    out.append(t + x + [T("CBracket")] * depth)
+    t = []
+    for _ in range(depth):
+        t += [T("Identifier", "a"), T("Dot", "."), T("Identifier", "f"), T("OBracket")]
+    out.append(t + x + [T("CBracket")] * depth)
     # unterminated towers
     out.append([T("OBracket")] * depth + x)
     out.append(([T("If", "if")] + x) * depth)
